@@ -82,6 +82,9 @@ def gen_call(rng):
         c["layers"] = rng.sample([0, 1, 2], rng.choice([1, 1, 2, 3]))
         c["bins_call"] = rng.choice([None, 5, "shared-list"])
         c["weights_call"] = rng.random() < 0.4
+        # logarithmic axes, and data with zero / negative entries (with explicit bin edges)
+        c["logx"] = rng.random() < 0.3
+        c["signed"] = rng.random() < 0.25
     elif fn == "scatter":
         c["color"] = rng.choice([None, "str", "array"])
         c["size"] = rng.choice([None, "float", "array"])
@@ -211,11 +214,16 @@ class Shared:
         self.color = osyris.Array(values=np.arange(n, dtype=float) + 1.0, unit="K", name="col")
         self.size = osyris.Array(values=np.full(n, 0.01), unit="cm", name="sz")
         self.plot_dict = {"x": self.dg["density"], "y": self.dg["temperature"]}
+        sg = np.linspace(-3.0, 40.0, n)
+        sg[: max(1, n // 5)] = 0.0
+        sg[0] = -3.0
+        self.signed = osyris.Array(values=sg, unit="K", name="signed")
+        self.signed_layer = osyris.core.Layer(self.signed)
 
     def everything(self):
         return {"dg": self.dg, "layers": self.layers, "scatter_layer": self.scatter_layer, "res_dict": self.res_dict, "origin": self.origin, "dxq": self.dxq, "dzq": self.dzq,
                 "bins_list": self.bins_list, "weights": self.weights, "h1_layers": self.h1_layers, "color": self.color, "size": self.size,
-                "plot_dict": self.plot_dict}
+                "plot_dict": self.plot_dict, "signed": self.signed, "signed_layer": self.signed_layer}
 
 
 def lvalue(case, o):
@@ -312,9 +320,17 @@ def run_call(case, call, S, sims, reference_layer=None):
             with Seam("osyris.plot.histogram2d", "hist2d", factory):
                 with np.errstate(all="ignore"):
                     return osyris.histogram2d(S.dg["density"], S.dg["temperature"], *layers, **kw)
+        if fn == "histogram1d" and call.get("signed"):
+            try:
+                lay = S.signed_layer if reference_layer is None else osyris.core.Layer(S.signed.copy())
+                return osyris.histogram1d(lay, bins=S.bins_list if reference_layer is None else S.bins_list.copy(), logx=bool(call.get("logx")))
+            finally:
+                plt.close("all")
         if fn == "histogram1d":
             k = call["layers"][-1] if reference_layer is None else reference_layer
             kw = {}
+            if call.get("logx"):
+                kw["logx"] = True
             h = case["hist1d_layer"]
             if not h.get("on", [True, True, True])[k]:
                 h = {"bins": None, "weights": False}
